@@ -649,8 +649,13 @@ func listPlans(c *engine.Ctx, prop string) []listPlan {
 	for _, k := range []drv.Kind{drv.Mem, drv.Bolt, drv.MultiMem} {
 		plans = append(plans, listPlan{cfg: drv.Config{Kind: k}, u: uc, depth: depth - 1})
 	}
+	// segments that start with a dot (hidden-file style names) on the fs layouts
+	ud := newListUniverse(".a/", 3, 3, "a", 9)
+	for _, k := range []drv.Kind{drv.MultiMem, drv.SingleMem} {
+		plans = append(plans, listPlan{cfg: drv.Config{Kind: k}, u: ud, depth: depth - 1})
+	}
 	// versioned variant (delete-marked keys): version stacks grow with depth, so a smaller universe
-	plans = append(plans, listPlan{cfg: drv.Config{Kind: drv.Mem}, u: newListUniverse("ab/", 3, 3, "a", 6), versioned: true, depth: depth - 1})
+	plans = append(plans, listPlan{cfg: drv.Config{Kind: drv.Mem}, u: newListUniverse("ab/", 3, 3, "a", 6), versioned: true, depth: depth})
 	if prop == "C04" {
 		// keys whose base64 form uses the characters that differ between the standard and the URL alphabet
 		plans = append(plans, listPlan{cfg: drv.Config{Kind: drv.Mem}, u: newListUniverse("a~/", 3, 3, "a", 8), depth: depth - 1})
